@@ -586,6 +586,20 @@ fn c17_grid(tier: Tier) -> Vec<Scenario> {
         s.server.unknown_command_wording = Some(wording.to_string());
         v.push(s);
     }
+    // (round 7) what the server calls itself and what it calls the picture's type are not the library's business:
+    // greetings of other versions (older, newer, odd), MIME types in unusual spellings - returned verbatim
+    for (k, version) in ["0.19.0", "0.20.23", "0.21.0", "0.22", "1.0.0", "2.20.0", "10.1", "0.24~git", "x"].into_iter().enumerate() {
+        let mut s = c17_scenario(&format!("C17-embedded-size9-limit4-greeting-version-{k}"), PicSource::Data(picture(9), Some("image/png".into())), PicSource::Empty, 4, false);
+        s.greeting = format!("OK MPD {version}\n").into_bytes();
+        v.push(s);
+        let mut s = c17_scenario(&format!("C17-cover-size9-limit4-greeting-version-{k}"), PicSource::Ack(5), PicSource::Data(picture(9), None), 4, false);
+        s.greeting = format!("OK MPD {version}\n").into_bytes();
+        v.push(s);
+    }
+    for (k, mime) in ["image/JPEG", "image/jpeg; charset=binary", " image/png ", "PNG", "application/octet-stream", "image/svg+xml", "-->", "\u{e9}/\u{e9}", "a"].into_iter().enumerate() {
+        v.push(c17_scenario(&format!("C17-embedded-size9-limit4-mime-spelling-{k}"), PicSource::Data(picture(9), Some(mime.to_string())), PicSource::Empty, 4, false));
+        v.push(c17_scenario(&format!("C17-embedded-size3-limit4-mime-spelling-{k}"), PicSource::Data(picture(3), Some(mime.to_string())), PicSource::Empty, 4, false));
+    }
     v.push(c17_scenario("C17-neither", PicSource::Empty, PicSource::Empty, 8192, false));
     v.push(c17_scenario("C17-neither-readpicture-unknown", PicSource::Ack(5), PicSource::Empty, 8192, false));
     // every server error code of MPD's enum, on either command
